@@ -4,6 +4,7 @@ import (
 	"encoding/json"
 	"fmt"
 	"go/token"
+	"go/types"
 	"os"
 	"path/filepath"
 	"sort"
@@ -53,6 +54,7 @@ type Ctx struct {
 	Selftest    map[string]interface{}
 	cache       map[string]*Interp
 	voc         *vocab
+	postConn    map[*types.Func]bool
 }
 
 func NewCtx(p *Program, prop, tier string) *Ctx {
